@@ -3,7 +3,7 @@ import json
 import os
 import shutil
 
-from .. import common, pipeline, tla
+from .. import canary, common, pipeline, tla
 from .. import d_defaults as D
 from . import _sc
 
@@ -39,6 +39,7 @@ def main(tier):
         with open(scnp, "w") as f:
             json.dump(dt, f)
         res = tla.judge("J_Defaults", events, chunk=3000, jobs=common.jobs(), env={"VERIF_SCN": scnp}, heap="3g")
+        pipeline.canaries(rep, "J_Defaults", events[::max(1, len(events) // 40)], canary.defaults, env={"VERIF_SCN": scnp}, want=16)
         rep.mark("judge")
         for gi, clause, _ in res["bad"]:
             e = events[gi]
